@@ -11,6 +11,7 @@
 package main
 
 import (
+	"unicode/utf8"
 	"bytes"
 	"encoding/json"
 	"fmt"
@@ -306,6 +307,7 @@ func newCapSrv() *capSrv {
 			h[k] = r.Header.Get(k)
 		}
 		s.mu.Lock()
+		h["~escaped-path"] = r.URL.EscapedPath()
 		s.last = append(s.last, capturedReq{Method: r.Method, Path: r.URL.Path, Query: r.URL.RawQuery, Header: h, Body: string(body), Kind: kind})
 		reply := s.reply
 		s.mu.Unlock()
@@ -487,9 +489,37 @@ func c18Encoders(c *Ctx, j *c18Judge, r *Rng) {
 				c.R.Count("enc.lock")
 			case 1:
 				force := r.Bool()
-				id := Pick(r, []string{"L1", "42", "id with space", "a/b"})
+				id := Pick(r, []string{"L1", "42", "id with space", "a/b", "a?b#c", "../../x", "ünï", "50%", "a%2Fb", "x;y,z", "$&+:=@", "q\"uote", "tab\there", "~-_.", "#", "?"})
+				if r.Chance(25) {
+					id = string(r.Bytes(1 + r.Intn(6)))
+				}
 				lc.UnlockFileById(id, force)
 				reqs := srv.take()
+				{
+					// the URL: `locks/<id>/unlock` with the id as ONE path segment — model UrlEsc.unlockSuffix
+					uline := "C18 unlockurl " + hx([]byte(id))
+					ugot := "no-request"
+					if len(reqs) > 0 {
+						rq := reqs[0]
+						u := strings.TrimPrefix(rq.Header["~escaped-path"], "/api/")
+						if rq.Query != "" {
+							u += "?" + rq.Query
+						}
+						ugot = hx([]byte(u))
+						if rq.Kind != "lock-delete" || rq.Query != "" || rq.Path != "/api/locks/"+id+"/unlock" || strings.Count(rq.Header["~escaped-path"], "/") != 4 {
+							j.fail("an unlock request does not go to the documented endpoint /locks/:id/unlock for the lock id asked", uline, fmt.Sprintf("id=%q -> %s %s?%s", id, rq.Method, rq.Header["~escaped-path"], rq.Query))
+						}
+					}
+					if strings.ContainsAny(id, "\x00\r\n") || !utf8.ValidString(id) || strings.ContainsFunc(id, func(c rune) bool { return c < 0x20 || c == 0x7f }) {
+						// net/http refuses control characters in a URL: no request at all is a correct outcome
+						if ugot != "no-request" {
+							push(uline, ugot, uline)
+						}
+					} else {
+						push(uline, ugot, uline)
+					}
+					c.R.Count("enc.unlock-url")
+				}
 				f := "0"
 				if force {
 					f = "1"
@@ -775,9 +805,14 @@ func c18JudgeServer(j *c18Judge, srv *lfsServer, from int, asked map[string]int6
 		case "lock-create":
 			j.apiHeaders(rq, cas)
 			j.body("lock-create", rq.Body, cas)
+		case "unknown":
+			j.fail("a request goes to a URL that is not an endpoint of the LFS API", cas, rq.Method+" "+rq.Header["~escaped-path"]+"?"+rq.Query)
 		case "lock-delete":
 			j.apiHeaders(rq, cas)
 			j.body("lock-delete", rq.Body, cas)
+			if ep := rq.Header["~escaped-path"]; rq.Query != "" || strings.Count(strings.TrimPrefix(ep, "/locks/"), "/") != 1 || !strings.HasPrefix(ep, "/locks/") {
+				j.fail("an unlock request does not go to the documented endpoint /locks/:id/unlock for the lock id asked", cas, rq.Method+" "+ep+"?"+rq.Query)
+			}
 		case "lock-verify":
 			j.apiHeaders(rq, cas)
 			j.body("lock-verify", rq.Body, cas)
@@ -1078,7 +1113,7 @@ func c18Corruption(c *Ctx, j *c18Judge, idx int, r *Rng) {
 	// single-field corruptions of otherwise valid responses
 	field := Pick(r, []string{"objects=null", "objects[0]=null", "objects[0].actions=null", "objects[0].actions.X=null", "objects[0].oid=other", "objects[0].oid=number", "objects[0].size=-1", "objects[0].size=string", "objects[0].size=huge",
 		"transfer=unknown", "transfer=number", "objects[0].actions.X.href=empty", "objects[0].actions.X.href=number", "objects[0].actions.X.header=string", "objects[0].actions.X.expires_in=-1", "objects[0].error=string", "objects[0].error.code=string",
-		"lock=null", "lock.id=number", "lock.owner=null", "locks=null", "locks[0]=null", "ours=null", "ours[0]=null", "theirs[0].owner=null", "next_cursor=number"})
+		"lock=null", "lock.id=number", "locks[0].id=a?b#c", "locks[0].id=../../x", "locks[0].id=a b/c", "locks[0].id=a?b#c", "lock.id=x/../y?z", "lock.owner=null", "locks=null", "locks[0]=null", "ours=null", "ours[0]=null", "theirs[0].owner=null", "next_cursor=number"})
 	srv.mu.Lock()
 	srv.mutate = func(kind string, m map[string]interface{}) { c18Mutate(field, m) }
 	srv.mu.Unlock()
@@ -1222,6 +1257,18 @@ func c18Mutate(field string, m map[string]interface{}) {
 	case "lock.id=number":
 		if l, ok := m["lock"].(map[string]interface{}); ok {
 			l["id"] = 12
+		}
+	case "locks[0].id=a?b#c", "locks[0].id=../../x", "locks[0].id=a b/c":
+		// a well-typed id with characters that mean something in a URL: the unlock request that uses it
+		if o := first("locks"); o != nil {
+			o["id"] = strings.TrimPrefix(field, "locks[0].id=")
+		}
+		if o := first("ours"); o != nil {
+			o["id"] = strings.TrimPrefix(field, "locks[0].id=")
+		}
+	case "lock.id=x/../y?z":
+		if l, ok := m["lock"].(map[string]interface{}); ok {
+			l["id"] = "x/../y?z"
 		}
 	case "lock.owner=null":
 		if l, ok := m["lock"].(map[string]interface{}); ok {
